@@ -154,6 +154,19 @@ def run(chk, w):
     chk.floor("functions_with_records", nn, 15)
 
     # ---- DBLFREE: a record passed by value to a free helper must not have its fields freed again by the caller
+    # ---- REL: files and YAML parsers opened while reading the configuration are released on every path
+    from .. import resources
+    chk.rule("C13-REL", "every file / YAML parser opened during start is closed / deleted on every path, error returns included (the acquiring helper is analysed inlined into its callers)")
+    def _ok(f, chain):
+        chk.ok("C13-REL", 1, {"function": f.name, "through": chain})
+    def _bad(f, kind, acq, ret, chain):
+        chk.violation("C13-REL", f.name, kind, ret.loc(), "the %s opened at %s%s is still open when %s returns at line %d: a failed start leaks it and repeated starts exhaust descriptors/memory" % (
+            kind, acq.loc(), (" (via %s)" % " <- ".join(chain)) if chain else "", f.name, ret.line))
+    def _abst(f, why):
+        chk.abstain("C13-REL", why, f.name)
+    nrel = resources.check(P, _ok, _bad, _abst)
+    chk.floor("resource_acquirers", nrel, 3)
+
     chk.rule("C13-DBLFREE", "after a record was handed by value to its free helper the caller does not free the record's fields again")
     free_helpers = {f.name for f in P.repo_functions() if "free" in f.name and any("byval" in p for p in f.params)}
     nd = 0
